@@ -374,7 +374,7 @@ val ch_open : z
 
 val ch_close : z
 
-val parse_ast : z list -> cmd list -> cmd list list -> cmd list option
+val parse_seg : nat -> z list -> (cmd list * z list) option
 
 val ast_of_source : z list -> cmd list option
 
